@@ -61,7 +61,12 @@ def concurrent_case(rng, tier):
     dsts = []
     for _ in range(1 + rng.below(3)):
         dsts.append({"from": M([("lst", A([S("t%d" % i) for i in range(rng.below(3))])), ("box", M([("inner", A([U(90 + i) for i in range(rng.below(3))]))]))]),
-                     "copts": [opt("PathSep", ".")], "opts": [opt("PathSep", "."), opt("VarExp")] + rng.pick([[opt("Prepend")], [opt("Append")], [], [opt("ReplaceArr")]])})
+                     "copts": [opt("PathSep", ".")], "opts": [opt("PathSep", "."), opt("VarExp")] + rng.pick([[opt("Prepend")], [opt("Append")], [], [opt("ReplaceArr")]])
+                              + rng.pick([[], [], [opt(rng.pick(["FieldAppend", "FieldPrepend", "FieldReplace", "FieldMerge"]), [rng.pick(["lst", "box.inner", "box"])])]])})
+    if rng.chance(0.4):
+        # per-field policies among the options every reader shares (typed reads merge lists by them)
+        ropts = ropts + [opt("PathSep", "."), opt(rng.pick(["FieldAppend", "FieldPrepend", "FieldReplace"]), [rng.pick(["lst", "box.inner", "vialist"])])]
+        reads += [{"r": "typed", "name": "lst", "ty": "strings"}]
     # parts of the config come from different sources: references carry their own metadata
     merges = list(c["merges"])
     if rng.chance(0.6):
@@ -75,10 +80,33 @@ def concurrent_case(rng, tier):
             "_sig": "conc|%s|%d" % (c.get("_tag", "refs"), len(reads))}
 
 
+def captured_refs(rng, tier):
+    """a setting that is a reference to an object (or to a list of objects), captured as *Config / Config by a struct
+    field and unpacked two or three times into the same target, under every list policy tag: the referenced object is read,
+    never merged into itself"""
+    VO = [opt("PathSep", "."), opt("VarExp")]
+    for i in range(40 if tier == "quick" else 400):
+        obj = M([("name", S(rng.pick(["x", "yy"]))), ("list", A([U(1 + j) for j in range(1 + rng.below(3))]))] +
+                ([("in", M([("k", U(7))]))] if rng.chance(0.5) else []))
+        where = rng.pick(["top", "nested"])
+        if where == "top":
+            src = M([("obj", obj), ("ref", S("${obj}")), ("other", U(1))]); nm = "ref"
+        else:
+            src = M([("box", M([("obj", obj), ("n", U(2))])), ("refs", M([("r", S("${box.obj}"))]))]); nm = "refs.r"
+        ops = [{"op": "new", "r": 0, "from": src, "opts": VO}]
+        for _ in range(1 + rng.below(3)):
+            ty = rng.pick(["", "append", "prepend", "replace", "merge"]) + rng.pick(["", "", "|rebrand"]) + rng.pick(["", "", "|value"])
+            ops.append({"op": "read", "r": 0, "what": "captured", "name": nm, "idx": 2 + rng.below(2), "ty": ty, "opts": VO})
+            if rng.chance(0.5):
+                ops.append({"op": "read", "r": 0, "what": rng.pick(["view", "keys"]), "name": "", "idx": -1, "opts": VO})
+        yield {"k": "forest", "regs": 5, "ops": ops, "_tag": "forest/captured-ref", "_nt": True, "_sig": "captured-ref|%s|%d|%d" % (where, len(ops), i % 5)}
+
+
 def gen(rng, tier):
     n = 400 if tier == "quick" else 4000
     for i in range(n):
         yield FO.history(rng, tier, refs=(i % 2 == 0), reads=True, flavour="c11")
+    yield from captured_refs(rng.fork("captured-refs"), tier)
     crng = rng.fork("concurrent")
     for i in range(60 if tier == "quick" else 600):
         yield concurrent_case(crng, tier)
